@@ -298,17 +298,25 @@ var osVers = []string{"", "10.0.17763.1", "10.0.17763.2000", "10.0.20348.1"}
 // reduced universes for the deeper thorough enumerations
 var archVariants3 = [][2]string{
 	{"amd64", ""}, {"amd64", "v2"}, {"amd64", "v3"}, {"x86_64", "v1"}, {"x86-64", "v2"},
-	{"386", ""}, {"arm", ""}, {"arm", "v6"}, {"arm", "8"}, {"armel", ""},
-	{"arm64", ""}, {"aarch64", "v8"},
+	{"x86_64", ""}, {"386", ""}, {"arm", ""}, {"arm", "v5"}, {"arm", "v6"}, {"arm", "v7"}, {"arm", "8"}, {"armel", ""},
+	{"arm64", ""}, {"aarch64", ""}, {"aarch64", "v8"},
 }
 var archVariants4 = [][2]string{{"amd64", ""}, {"x86_64", "v2"}, {"amd64", "v3"}, {"arm64", ""}}
 var osList4 = []string{"linux", "windows", "darwin"}
-var osVers4 = []string{"", "10.0.17763.1", "10.0.17763.2000"}
 
-// buildUniverse: cross product plus the entry without a platform and the entry
-// with an empty platform object.
+// buildUniverse: cross product plus the entry without a platform, the entry
+// with an empty platform object, and entries with an absent field (OS only,
+// architecture only).
 func buildUniverse(oss []string, avs [][2]string, vers []string) []Plat {
 	u := []Plat{{Nil: true}, {}}
+	for _, o := range oss {
+		u = append(u, Plat{OS: o})
+	}
+	for _, av := range avs {
+		if av[1] == "" {
+			u = append(u, Plat{Arch: av[0]})
+		}
+	}
 	for _, o := range oss {
 		for _, av := range avs {
 			for _, v := range vers {
@@ -326,7 +334,7 @@ func requestsOf(u []Plat) []Plat {
 	var out []Plat
 	for _, p := range u {
 		c := refNorm(p)
-		if !c.ok || c.arch == "" || seen[c] {
+		if !c.ok || c.arch == "" || c.os == "" || seen[c] {
 			continue
 		}
 		seen[c] = true
@@ -339,7 +347,7 @@ func requestsOf(u []Plat) []Plat {
 func rawRequestsOf(u []Plat) []Plat {
 	var out []Plat
 	for _, p := range u {
-		if !p.Nil && p.Arch != "" {
+		if !p.Nil && p.Arch != "" && p.OS != "" {
 			out = append(out, p)
 		}
 	}
